@@ -5,11 +5,16 @@ out = subprocess.run(["git", "-C", "/repo", "status", "--short"], capture_output
 for line in out.splitlines():
     if line[:2] in ("AA", "UU") and line.endswith("verif_export.go"):
         p = "/repo/" + line[3:].strip()
-        s = open(p).read()
-        s = re.sub(r"<<<<<<< [^\n]*\n", "", s)
-        s = re.sub(r"=======\n", "\n", s)
-        s = re.sub(r">>>>>>> [^\n]*\n", "", s)
-        open(p, "w").write(s)
+        raw = open(p).read()
+        # both sides appended functions after the same last function: git then keeps the
+        # shared closing brace outside the conflict, so the first side may need its own
+        for sep in ("\n", "}\n\n"):
+            s = re.sub(r"<<<<<<< [^\n]*\n", "", raw)
+            s = re.sub(r"=======\n", sep, s)
+            s = re.sub(r">>>>>>> [^\n]*\n", "", s)
+            open(p, "w").write(s)
+            if subprocess.run(["gofmt", "-e", "-l", p], capture_output=True).returncode == 0:
+                break
         subprocess.run(["gofmt", "-w", p])
         subprocess.run(["git", "-C", "/repo", "add", line[3:].strip()])
         print("resolved", p)
